@@ -424,6 +424,11 @@ func (f *e1func) inlineCall(st *fstate, c *ast.CallExpr) []*fstate {
 	if callee == nil {
 		return []*fstate{st}
 	}
+	// the same helper call evaluated again on this path (a retry): what is known about the earlier evaluation does not
+	// describe this one
+	if ct := f.tb.callTerm(c); st.has(fact("ok", ct)) || st.has(fact("fail", ct)) {
+		st = st.forgetCall(ct)
+	}
 	if f.inlMemo == nil {
 		f.inlMemo = map[string]*inlResult{}
 	}
